@@ -10,6 +10,7 @@
 package c17
 
 import (
+	_ "embed"
 	"encoding/json"
 	"fmt"
 	"math"
@@ -28,6 +29,16 @@ import (
 
 type Driver struct{}
 
+// Stored scenarios (items with their tail, width): paragraphs in which, by the spec's own predicate OptViaDearer, the
+// optimum runs through a fitness class that is not the cheapest at some inner breakpoint. They are rare among random
+// paragraphs (about 1 in 20 000, see notes/C17.md) and were mined once; the spec re-judges them on every run and
+// re-computes the feature (evidence: corpus_scenarios, corpus_optimum_via_dearer_class).
+//
+//go:embed kp_corpus.ndjson
+var corpus []byte
+
+var dumpMu sync.Mutex
+
 func (Driver) ID() string { return "C17" }
 
 // ---- what the specification prints -----------------------------------------------------------------
@@ -44,13 +55,34 @@ type Line struct {
 	E    bool   `json:"e"`    // empty line: nothing between the two breakpoints
 }
 
+// Dem is a demerit value in units of 1/10000; the spec prints it as the two-limb number [H, L] = H*10000 + L.
+type Dem int64
+
+func (d *Dem) UnmarshalJSON(b []byte) error {
+	var hl [2]int64
+	if err := json.Unmarshal(b, &hl); err != nil {
+		return err
+	}
+	*d = Dem(hl[0]*10000 + hl[1])
+	return nil
+}
+
+func (d Dem) MarshalJSON() ([]byte, error) {
+	h := int64(d) / 10000
+	l := int64(d) % 10000
+	if l < 0 {
+		h, l = h-1, l+10000
+	}
+	return json.Marshal([2]int64{h, l})
+}
+
 type Judged struct {
 	B    []int  `json:"b"`
 	Cls  string `json:"cls"`
 	ClsX string `json:"clsx"`
 	Shr  string `json:"shr"`
-	Dlo  int64  `json:"dlo"`
-	Dhi  int64  `json:"dhi"`
+	Dlo  Dem    `json:"dlo"`
+	Dhi  Dem    `json:"dhi"`
 	Mx   [2]int `json:"mx"`
 	Ls   []Line `json:"ls,omitempty"` // the breaking's own lines (long lists: no global line table)
 }
@@ -63,9 +95,9 @@ type Verdict struct {
 	Ln       []Line   `json:"ln"`
 	Brk      []Judged `json:"brk"`
 	SF       bool     `json:"sf"`
-	MinD     int64    `json:"mind"`
+	MinD     Dem      `json:"mind"`
 	SFX      bool     `json:"sfx"`   // exact reading -1 <= r <= Tolerance: used for the identity embedding, where all
-	MinDX    int64    `json:"mindx"` // lengths are small integers and the library's float arithmetic is exact
+	MinDX    Dem      `json:"mindx"` // lengths are small integers and the library's float arithmetic is exact
 	AllInf   bool     `json:"allinf"`
 	Complete bool     `json:"complete"` // brk holds every breaking (otherwise: exactly those without a surely infeasible line)
 	SShr     bool     `json:"sshr"`
@@ -336,7 +368,7 @@ func judge(v *Verdict, r Result, s float64) (ms []core.Mismatch) {
 		if rcls == "I" {
 			opt("infeasible-result", "returned %v has a line outside [-1,Tolerance] although a feasible breaking exists (min demerits_hi %d)", r.Pos, minD)
 		} else if res.Dlo > minD {
-			opt("suboptimal", "returned %v has demerits >= %d/100, a feasible breaking has demerits <= %d/100", r.Pos, res.Dlo, minD)
+			opt("suboptimal", "returned %v has demerits >= %d/10000, a feasible breaking has demerits <= %d/10000", r.Pos, res.Dlo, minD)
 		}
 		if !r.OK {
 			opt("overflow-reported-feasible", "overflow reported although a feasible breaking exists")
@@ -443,6 +475,22 @@ func (d Driver) Run(c *core.Ctx) error {
 						c.Report(Scenario{Kind: "gen", Emb: e, V: json.RawMessage(p)}, ms)
 					}
 				}
+				if f := os.Getenv("C17_DUMP"); f != "" && v != nil { // development aid: one line per scenario
+					sigs := map[string]bool{}
+					for e := range Embeddings {
+						_, ms := execGen(p, e)
+						for _, m := range ms {
+							sigs[m.Signature] = true
+						}
+					}
+					b, _ := json.Marshal(map[string]any{"items": v.Items, "width": v.Width, "feat": v.Feat, "sigs": sigs, "sf": v.SF})
+					dumpMu.Lock()
+					if fh, err := os.OpenFile(f, os.O_APPEND|os.O_CREATE|os.O_WRONLY, 0o644); err == nil {
+						fh.Write(append(b, '\n'))
+						fh.Close()
+					}
+					dumpMu.Unlock()
+				}
 				k := atomic.AddInt64(&n, 1)
 				if k%40000 == 1 {
 					c.Sample(json.RawMessage(p))
@@ -452,6 +500,9 @@ func (d Driver) Run(c *core.Ctx) error {
 				}
 				if v.SF {
 					atomic.AddInt64(&feas, 1)
+				}
+				if v.hasFeat("viadearer") {
+					c.AddExtra("corpus_optimum_via_dearer_class", 1)
 				}
 				if len(v.Brk) >= 2 && (v.SF || (v.AllInf && v.SShr)) {
 					if _, dup := seen.LoadOrStore(key2(v), true); !dup {
@@ -505,9 +556,15 @@ func (d Driver) Run(c *core.Ctx) error {
 		runSmall(c, run)
 	}
 	// paragraph-shaped lists: many feasible breakings of nearly equal badness (flagged / fitness terms, class pruning)
+	onlyCorpus := os.Getenv("C17_ONLY") == "corpus" // development aid (mining / checking the stored scenarios)
+	onlyPara = onlyPara || onlyCorpus
 	for _, pc := range [][3]int{{9, 20, 25}, {9, 26, 31}, {11, 26, 33}} {
+		if onlyCorpus {
+			break
+		}
 		run(tlc.Opts{Module: "KnuthPlass", Config: cfg("para", pc[0], c.Pick(500, 5000), pc[1], pc[2], "std", false), Seed: c.Seed + int64(100+pc[0]+pc[1])})
 	}
+	run(tlc.Opts{Module: "KnuthPlass", Config: cfg("corpus", 0, 0, 0, 0, "std", false), Files: map[string][]byte{"kp_corpus.ndjson": corpus}})
 	wg.Wait()
 	c.Count(0, nontrivial, 0)
 	c.SetExtra("scenarios_with_feasible_breaking", feas)
